@@ -45,6 +45,20 @@ var targets = []target{
 	{"share/dkg/pedersen/pdkg.go", "", "stampSender", "stampSender", ""},
 	{"share/dkg/pedersen/pdkg.go", "", "handlePeerMsg", "handlePeerMsg", ""},
 	{"share/dkg/pedersen/pdkg.go", "pdkg", "Loop", "loopPeerMsg", "msg.Msg.Message"},
+	// C05 round 4 (other sessions): every response goes through the verifier of the slot it names; what a
+	// response signature covers; the key a session's responses are signed with is drawn per Grouping call
+	{"share/vss/pedersen/vss.go", "Verifier", "ProcessResponse", "verifierProcessResponse", ""},
+	{"share/vss/pedersen/vss.go", "Response", "Hash", "responseHash", ""},
+	{"share/dkg/pedersen/pdkg_pipes.go", "", "genPub", "genPub", ""},
+	{"share/dkg/pedersen/pdkg.go", "pdkg", "Grouping", "grouping", ""},
+}
+
+// structs lists the struct types whose field list (names and types, in order) is extracted: the state a
+// DistKeyGenerator / aggregator keeps, i.e. what is keyed by what.
+var structs = []struct{ file, name, lean string }{
+	{"share/dkg/pedersen/dkg.go", "DistKeyGenerator", "distKeyGeneratorFields"},
+	{"share/vss/pedersen/vss.go", "aggregator", "aggregatorFields"},
+	{"share/vss/pedersen/vss.go", "Verifier", "verifierFields"},
 }
 
 type walker struct {
@@ -239,6 +253,52 @@ func run(repo string) (string, error) {
 		for i, l := range w.lines {
 			sep := ","
 			if i == len(w.lines)-1 {
+				sep = ""
+			}
+			s += "  " + ex.LeanStr(l) + sep + "\n"
+		}
+		s += "]\n"
+	}
+	for _, st := range structs {
+		if parsed[st.file] == nil {
+			fset, f, err := ex.Parse(filepath.Join(repo, filepath.FromSlash(st.file)))
+			if err != nil {
+				return "", err
+			}
+			parsed[st.file], fsets[st.file] = f, fset
+		}
+		w := &walker{fset: fsets[st.file]}
+		var lines []string
+		found := false
+		for _, d := range parsed[st.file].Decls {
+			gd, ok := d.(*ast.GenDecl)
+			if !ok || gd.Tok != token.TYPE {
+				continue
+			}
+			for _, sp := range gd.Specs {
+				ts := sp.(*ast.TypeSpec)
+				stt, ok := ts.Type.(*ast.StructType)
+				if ts.Name.Name != st.name || !ok {
+					continue
+				}
+				found = true
+				for _, fl := range stt.Fields.List {
+					if len(fl.Names) == 0 {
+						lines = append(lines, "(embedded) "+w.src(fl.Type))
+					}
+					for _, nm := range fl.Names {
+						lines = append(lines, nm.Name+" "+w.src(fl.Type))
+					}
+				}
+			}
+		}
+		if !found {
+			return "", fmt.Errorf("struct type %s not found in %s", st.name, st.file)
+		}
+		s += fmt.Sprintf("def %s : List String := [\n", st.lean)
+		for i, l := range lines {
+			sep := ","
+			if i == len(lines)-1 {
 				sep = ""
 			}
 			s += "  " + ex.LeanStr(l) + sep + "\n"
